@@ -306,3 +306,29 @@ def _wrap_reader(F, f, name, mode, kw):
         return io.TextIOWrapper(nb, encoding=kw.get('encoding') or f.encoding,
                                 errors=kw.get('errors'), newline=kw.get('newline'))
     return nb
+
+
+# ---------------------------------------------------------------- clock
+
+_clock_epoch = [1600000000.0]
+
+
+@contextlib.contextmanager
+def fake_time(step=1.0):
+    """time.time() under harness control: every activation starts 1000 s after
+    the previous one and every call advances by ``step`` — so anything that leaks
+    the wall clock into written bytes (e.g. a gzip header) differs between two
+    runs deterministically instead of only across second boundaries."""
+    import time
+    orig = time.time
+    _clock_epoch[0] += 1000.0
+    now = [_clock_epoch[0]]
+
+    def fake():
+        now[0] += step
+        return now[0]
+    time.time = fake
+    try:
+        yield
+    finally:
+        time.time = orig
